@@ -4,7 +4,7 @@
 EXTENDS IncrValidator, TLCExt
 VARIABLE l
 TraceLog == ndJsonDeserialize("trace.ndjson")
-THeights == 0..70
+THeights == 0..64
 TTx == 1..6
 tvars == <<blocks, base, max, run, hist, l>>
 Ev == TraceLog[l]
